@@ -5,6 +5,7 @@ import (
 	"go/token"
 	"go/types"
 	"os"
+	"regexp"
 	"sort"
 	"strconv"
 	"strings"
@@ -521,7 +522,28 @@ func (in *Interp) visitInstr(fr *frame, instr ssa.Instruction) continuation {
 		}
 		fr.set(instr, &Closure{instr.Fn.(*ssa.Function), b})
 	case *ssa.Select:
-		in.unsupported("select")
+		cases := make([]selCase, len(instr.States))
+		for i, st := range instr.States {
+			c, _ := fr.get(st.Chan).(*Chan)
+			cases[i] = selCase{c: c, send: st.Dir == types.SendOnly}
+			if cases[i].send {
+				cases[i].val = fr.get(st.Send)
+			}
+		}
+		idx, v, ok := in.sched.selectOp(cases, instr.Blocking)
+		// result: (index, recvOk, r_0 ... r_n-1) with one r per receive case
+		res := Tuple{int64(idx), ok}
+		for i, st := range instr.States {
+			if st.Dir != types.RecvOnly {
+				continue
+			}
+			if i == idx {
+				res = append(res, v)
+			} else {
+				res = append(res, zero(st.Chan.Type().Underlying().(*types.Chan).Elem()))
+			}
+		}
+		fr.set(instr, res)
 	default:
 		panic(fmt.Sprintf("unexpected instruction %T", instr))
 	}
@@ -1045,6 +1067,13 @@ func (in *Interp) callSSA(caller *frame, fn *ssa.Function, args []Value, env []V
 			if _, ok := args[0].(HostObj); ok {
 				if v, ok := in.tryHostCall(name, fn.Name(), args); ok {
 					return v
+				}
+				// summarised pure callee: regexp replacement for the patterns modelled in models.go
+				if re, isRe := args[0].(HostObj).V.Interface().(*regexp.Regexp); isRe && fn.Name() == "ReplaceAllString" && len(args) == 3 {
+					if m := in.mainPkg.Func("verifModelRegexp_ReplaceAllString"); m != nil {
+						in.stubs["regexp.(*Regexp).ReplaceAllString: Go model for the pattern "+re.String()] = true
+						return in.callSSA(caller, m, []Value{re.String(), args[1], args[2]}, nil)
+					}
 				}
 				in.unsupported("host method with symbolic args: " + name)
 			}
